@@ -30,6 +30,14 @@ func runC07(c *Ctx) {
 	c.ruleErrorAlwaysOffered("R07.6")
 	// the outcome is remembered by the sender before it is sent: every reader, however many, sees it
 	c.ruleResponse("R07.7")
+	// what is stored for a persistent/distributed job is what the worker function later sees
+	c.ruleWireType("R07.8")
+	// a batch's outcomes never block the pool: its stream holds one slot per item
+	c.ruleWhoArms("R07.9")
+	// a failure is counted where a job failed — in the worker-function wrappers — and nowhere else (an error that is
+	// merely offered on Errs(), e.g. a refused acknowledgement or a dispatcher error, is not a failed job)
+	c.Rep.rule("R07.10", "E1 who-may-call", "Failed/Successful are counted only by the worker-function wrappers", 2)
+	c.ruleWhoCounts("R07.10")
 }
 
 // publicWorkerCtors: exported functions of package varmq whose first parameter is a function (the user's worker function).
